@@ -563,9 +563,98 @@ def r_fold(c):
         raise AnalysisError(f"fold/insert anchors vanished (folds={n_fold}, inserts={n_ins})")
 
 
+AXIS_PARAMS = ("axis", "axes", "iaxis")
+
+
+def _validates(m, mi, fd, param, depth=0, seen=None):
+    """does ``fd`` reject bad values of ``param`` when it is called?  A raising
+    `if` whose test depends on the parameter (through assignments, loops and
+    comprehensions), or handing the value on to a repository function that does."""
+    seen = seen if seen is not None else set()
+    if (id(fd), param) in seen or depth > 4:
+        return None
+    seen.add((id(fd), param))
+    taint = {param}
+    changed = True
+    while changed:
+        changed = False
+        for n in ast.walk(fd):
+            tgts, srcs = [], []
+            if isinstance(n, ast.Assign):
+                tgts, srcs = n.targets, [n.value]
+            elif isinstance(n, ast.AnnAssign) and n.value is not None:
+                tgts, srcs = [n.target], [n.value]
+            elif isinstance(n, (ast.For, ast.comprehension)):
+                tgts, srcs = [n.target], [n.iter]
+            if any(isinstance(x, ast.Name) and x.id in taint for s_ in srcs for x in ast.walk(s_)):
+                for t in tgts:
+                    for x in ast.walk(t):
+                        if isinstance(x, ast.Name) and x.id not in taint:
+                            taint.add(x.id)
+                            changed = True
+    for n in ast.walk(fd):
+        if isinstance(n, ast.If) and any(isinstance(s_, ast.Raise) for s_ in n.body) \
+                and any(isinstance(x, ast.Name) and x.id in taint for x in ast.walk(n.test)) \
+                and ast.unparse(n.test) != f"{param} is None":
+            return f"`if {m.frag(n.test, 50)}: raise` in {fd.name}"
+    # delegation: a call that receives a tainted value
+    for call in ast.walk(fd):
+        if not isinstance(call, ast.Call):
+            continue
+        args = [(i, a) for i, a in enumerate(call.args)] + [(k.arg, k.value) for k in call.keywords]
+        hit = [(pos, a) for pos, a in args if any(
+            isinstance(x, ast.Name) and x.id in taint for x in ast.walk(a))]
+        if not hit:
+            continue
+        fn = ast.unparse(call.func)
+        cands = []
+        for q in (fn, fn.split(".")[-1]):
+            # `pt.transpose` / `utils.f` / local imports: try the name as written,
+            # its last component in this module, and in the package's re-exports
+            for r in (m.resolve_name(mi.name, q), m.resolve_name("pytato", q.split(".")[-1])):
+                if r and m.has_func(r) and not cands:
+                    cands.append((m.module(r.rpartition(".")[0]), m.func(r)))
+        for cmi, cfd in cands[:1]:
+            cparams = [a.arg for a in cfd.args.args]
+            for pos, _a in hit:
+                cp = cparams[pos] if isinstance(pos, int) and pos < len(cparams) else pos
+                if isinstance(cp, str) and cp in cparams:
+                    why = _validates(m, cmi, cfd, cp, depth + 1, seen)
+                    if why:
+                        return f"{fn}(...): {why}"
+    return None
+
+
+def r_axis_total(c):
+    """every public function that takes an axis argument rejects bad axes itself
+    or hands them to a repository function that does"""
+    m = c.model
+    n = 0
+    for mod in ("pytato.array", "pytato.reductions"):
+        mi = m.module(mod)
+        cands = list(mi.functions.items())
+        if mod == "pytato.array":
+            cands += [(f"Array.{k}", v) for k, v in m.cls("pytato.array.Array").methods.items()]
+        for name, fd in cands:
+            if name.split(".")[-1].startswith("_") and not name.endswith("_normalize_reduction_axes"):
+                continue
+            for a in fd.args.args + fd.args.kwonlyargs:
+                if a.arg not in AXIS_PARAMS:
+                    continue
+                n += 1
+                why = _validates(m, mi, fd, a.arg)
+                c.check(why is not None, "R03-AXIS", f"{mod.replace('pytato.', '')}.{name}",
+                        f"{a.arg}:validated-when-built", m.loc(mi, fd),
+                        f"no raising test depends on `{a.arg}` in {name} or in the repository "
+                        "functions it hands the value to: an axis NumPy rejects is accepted "
+                        "when the expression is built", ok_detail=why)
+    if n < 12:
+        raise AnalysisError(f"only {n} axis-taking public functions found (floor 12)")
+
+
 SPEC = Spec(
     prop="C03",
-    rules=[r_eager, r_axis, r_splice, r_operators, r_slice, r_fold],
+    rules=[r_eager, r_axis, r_axis_total, r_splice, r_operators, r_slice, r_fold],
     floors={"R03-EAGER": 70, "R03-AXIS": 15, "R03-SPLICE": 3, "R03-OPERATORS": 40,
             "R03-SLICE": 5, "R03-FOLD": 2},
     explanation=(
